@@ -25,6 +25,8 @@ Require Import Cirbo.Proofs.BuilderFacts Cirbo.Proofs.ArithFacts Cirbo.Proofs.Ar
   Cirbo.Proofs.ArithSumGenFacts
   Cirbo.Proofs.ArithSumStruct Cirbo.Proofs.ArithSumStructA Cirbo.Proofs.ArithSumStructB
   Cirbo.Proofs.ArithSumStructC Cirbo.Proofs.ArithSumFinal.
+Require Import Cirbo.Proofs.TotalFacts Cirbo.Proofs.ArithSumMinted Cirbo.Proofs.ArithSumTotalFinal.
+Require Import Coq.Logic.FinFun.
 Open Scope Z_scope.
 
 (* ---- the builder layer (shared with C09) -------------------------------------------------------- *)
@@ -261,6 +263,184 @@ Theorem C07_generate_sum_weighted_bits_naive : forall fresh k0 ins weights basis
         exists rv, bvals c asg (outputs c) rv /\ wvalue (map fst res) rv = wvalue weights bs.
 Proof. exact generate_sum_weighted_bits_naive_correct. Qed.
 
+(* ---- "every summation generator works", ALL sizes -------------------------------------------------------- *)
+(* The value theorems above are conditional on the model run returning Ok.  The run DOES return Ok,
+   for every operand count / weight vector / width / shift: the fuel of every modelled while loop
+   suffices, every `cannot happen` branch of the model (now_solo[0] of an empty level; the sentinel
+   `break` of the weighted loops, Err PyAssertionError in the model; out[it][0] of an empty block) is
+   unreachable, every operand of every new gate exists and every new label is unoccupied -- whenever
+   the operand labels name gates of the host (`all_exist c ls`), the basis resolves, and the naming
+   function of the uuid counter is injective (as in the C09 works-theorems).  The remaining
+   hypotheses exclude exactly the inputs on which the implementation itself raises:
+     - weighted sums: an empty operand list (max([]) raises ValueError);
+     - add_sum_two_numbers: an empty operand (input_labels_x[0] raises IndexError);
+     - add_sum_two_numbers_with_shift: shift < len(a) with b empty, shift > len(a) = 0 (IndexError);
+     - add_sum_pow2_m1: n = 0 (assert n > 0); the basis is only resolved for n >= 2;
+       the uuid labels are never "" (C07_pow2_m1_needs_nonempty_uuid_labels) and "" is not a gate of
+       the host (the side condition of the value theorem; not needed for termination alone).
+   `..._total_exact` = works + the value theorem: an unconditional statement. *)
+Theorem C07_sum_n_bits_works : forall fresh, Injective fresh -> forall basis b be xs s,
+  resolve_basis basis = Ok b -> all_exist (bc s) xs ->
+  exists rs s', run fresh (add_sum_n_bits basis be xs) s = Ok (rs, s').
+Proof. exact add_sum_n_bits_works. Qed.
+
+Theorem C07_sum_n_bits_total_exact : forall fresh, Injective fresh -> forall basis b be xs s,
+  resolve_basis basis = Ok b -> all_exist (bc s) xs ->
+  exists rs s', run fresh (add_sum_n_bits basis be xs) s = Ok (rs, s') /\
+    ext (bc s) (bc s') /\ inputs (bc s') = inputs (bc s) /\ outputs (bc s') = outputs (bc s) /\
+    (exists g, adds (t_of b) (bc s) (bc s') g /\ nbits_bound b g (length rs) (length xs)) /\
+    forall asg xv, bvals (bc s) asg xs xv ->
+      exists rv, bvals (bc s') asg rs rv /\ decode be rv = ones xv.
+Proof. exact add_sum_n_bits_total_exact. Qed.
+
+Theorem C07_sum_n_bits_easy_works : forall fresh, Injective fresh -> forall be xs s,
+  all_exist (bc s) xs -> exists rs s', run fresh (add_sum_n_bits_easy be xs) s = Ok (rs, s').
+Proof. exact add_sum_n_bits_easy_works. Qed.
+
+Theorem C07_sum_n_bits_easy_total_exact : forall fresh, Injective fresh -> forall be xs s,
+  all_exist (bc s) xs ->
+  exists rs s', run fresh (add_sum_n_bits_easy be xs) s = Ok (rs, s') /\
+    ext (bc s) (bc s') /\ inputs (bc s') = inputs (bc s) /\ outputs (bc s') = outputs (bc s) /\
+    (exists g, adds t_xaig (bc s) (bc s') g /\ (g + 3 * length rs <= 5 * length xs)%nat) /\
+    forall asg xv, bvals (bc s) asg xs xv ->
+      exists rv, bvals (bc s') asg rs rv /\ decode be rv = ones xv.
+Proof. exact add_sum_n_bits_easy_total_exact. Qed.
+
+Theorem C07_sum_pow2_m1_works : forall fresh, Injective fresh -> forall basis be xs s,
+  xs <> [] -> all_exist (bc s) xs -> ((2 <= length xs)%nat -> exists b, resolve_basis basis = Ok b) ->
+  has_gate (bc s) "" = false -> (forall k, fresh k <> ""%string) ->
+  exists cols s', run fresh (add_sum_pow2_m1 basis be xs) s = Ok (cols, s').
+Proof. exact add_sum_pow2_m1_works. Qed.
+
+(* with "" not a gate of the host and never a uuid label, "" is not a gate of the final circuit, and
+   the value clause of C07_sum_pow2_m1_exact becomes unconditional *)
+Theorem C07_sum_pow2_m1_total_exact : forall fresh, Injective fresh -> forall basis be xs s,
+  xs <> [] -> all_exist (bc s) xs -> ((2 <= length xs)%nat -> exists b, resolve_basis basis = Ok b) ->
+  has_gate (bc s) "" = false -> (forall k, fresh k <> ""%string) ->
+  exists cols s', run fresh (add_sum_pow2_m1 basis be xs) s = Ok (cols, s') /\
+    ext (bc s) (bc s') /\ inputs (bc s') = inputs (bc s) /\ outputs (bc s') = outputs (bc s) /\
+    (forall b, resolve_basis basis = Ok b -> exists g, adds (t_of b) (bc s) (bc s') g) /\
+    (exists l0, hd_error cols = Some [l0]) /\
+    has_gate (bc s') "" = false /\
+    forall asg xv, bvals (bc s) asg xs xv ->
+      exists cvs, Forall2 (bvals (bc s') asg) cols cvs /\ cols_val cvs = ones xv.
+Proof. exact add_sum_pow2_m1_total_exact. Qed.
+
+(* every gate of the final circuit of a generator that only calls add_gate_from_tt is a gate of the
+   host or carries a uuid label; all summation generators are of this kind *)
+Theorem C07_new_gates_carry_uuid_labels : forall fresh A (p : prog A), gen_only p ->
+  forall s r s', run fresh p s = Ok (r, s') ->
+  forall l, has_gate (bc s') l = true -> has_gate (bc s) l = true \/ exists k, l = fresh k.
+Proof. exact gen_only_grown. Qed.
+
+Theorem C07_sum_n_weighted_bits_works : forall fresh, Injective fresh -> forall basis b inp s,
+  resolve_basis basis = Ok b -> inp <> [] -> all_exist (bc s) (map snd inp) ->
+  exists res s', run fresh (add_sum_n_weighted_bits basis inp) s = Ok (res, s').
+Proof. exact add_sum_n_weighted_bits_works. Qed.
+
+Theorem C07_sum_n_weighted_bits_total_exact : forall fresh, Injective fresh -> forall basis b inp s,
+  resolve_basis basis = Ok b -> inp <> [] -> all_exist (bc s) (map snd inp) ->
+  exists res s', run fresh (add_sum_n_weighted_bits basis inp) s = Ok (res, s') /\
+    ext (bc s) (bc s') /\ inputs (bc s') = inputs (bc s) /\ outputs (bc s') = outputs (bc s) /\
+    (exists g, adds (t_of b) (bc s) (bc s') g /\ weighted_bound b g (length res) (length inp)) /\
+    incr res /\
+    forall asg vs, bvals (bc s) asg (map snd inp) vs ->
+      exists rv, bvals (bc s') asg (map snd res) rv /\ wvalue (map fst res) rv = wvalue (map fst inp) vs.
+Proof. exact add_sum_n_weighted_bits_total_exact. Qed.
+
+Theorem C07_sum_n_weighted_bits_naive_works : forall fresh, Injective fresh -> forall basis b inp s,
+  resolve_basis basis = Ok b -> inp <> [] -> all_exist (bc s) (map snd inp) ->
+  exists res s', run fresh (add_sum_n_weighted_bits_naive basis inp) s = Ok (res, s').
+Proof. exact add_sum_n_weighted_bits_naive_works. Qed.
+
+Theorem C07_sum_n_weighted_bits_naive_total_exact : forall fresh, Injective fresh -> forall basis b inp s,
+  resolve_basis basis = Ok b -> inp <> [] -> all_exist (bc s) (map snd inp) ->
+  exists res s', run fresh (add_sum_n_weighted_bits_naive basis inp) s = Ok (res, s') /\
+    ext (bc s) (bc s') /\ inputs (bc s') = inputs (bc s) /\ outputs (bc s') = outputs (bc s) /\
+    (exists g, adds (t_of b) (bc s) (bc s') g /\
+               (g + 3 * length res <= (match b with AIG => 7 | XAIG => 5 end) * length inp)%nat) /\
+    incr res /\
+    forall asg vs, bvals (bc s) asg (map snd inp) vs ->
+      exists rv, bvals (bc s') asg (map snd res) rv /\ wvalue (map fst res) rv = wvalue (map fst inp) vs.
+Proof. exact add_sum_n_weighted_bits_naive_total_exact. Qed.
+
+Theorem C07_sum_two_numbers_works : forall fresh, Injective fresh -> forall xs ys be s,
+  xs <> [] -> ys <> [] -> all_exist (bc s) xs -> all_exist (bc s) ys ->
+  exists rs s', run fresh (add_sum_two_numbers xs ys be) s = Ok (rs, s').
+Proof. exact add_sum_two_numbers_works. Qed.
+
+Theorem C07_sum_two_numbers_total_exact : forall fresh, Injective fresh -> forall xs ys be s,
+  xs <> [] -> ys <> [] -> all_exist (bc s) xs -> all_exist (bc s) ys ->
+  exists rs s', run fresh (add_sum_two_numbers xs ys be) s = Ok (rs, s') /\
+    ext (bc s) (bc s') /\ inputs (bc s') = inputs (bc s) /\ outputs (bc s') = outputs (bc s) /\
+    length rs = S (Nat.max (length xs) (length ys)) /\
+    forall asg xv yv, bvals (bc s) asg xs xv -> bvals (bc s) asg ys yv ->
+      exists rv, bvals (bc s') asg rs rv /\ decode be rv = decode be xv + decode be yv.
+Proof. exact add_sum_two_numbers_total_exact. Qed.
+
+Theorem C07_sum_two_numbers_with_shift_works : forall fresh, Injective fresh -> forall sh xs ys be s,
+  all_exist (bc s) xs -> all_exist (bc s) ys ->
+  ((sh < length xs)%nat -> ys <> []) -> ((length xs < sh)%nat -> xs <> []) ->
+  exists rs s', run fresh (add_sum_two_numbers_with_shift sh xs ys be) s = Ok (rs, s').
+Proof. exact add_sum_two_numbers_with_shift_works. Qed.
+
+Theorem C07_sum_two_numbers_with_shift_total_exact : forall fresh, Injective fresh -> forall sh xs ys be s,
+  all_exist (bc s) xs -> all_exist (bc s) ys ->
+  ((sh < length xs)%nat -> ys <> []) -> ((length xs < sh)%nat -> xs <> []) ->
+  exists rs s', run fresh (add_sum_two_numbers_with_shift sh xs ys be) s = Ok (rs, s') /\
+    ext (bc s) (bc s') /\ inputs (bc s') = inputs (bc s) /\ outputs (bc s') = outputs (bc s) /\
+    forall asg xv yv, bvals (bc s) asg xs xv -> bvals (bc s) asg ys yv ->
+      exists rv, bvals (bc s') asg rs rv /\ decode be rv = decode be xv + decode be yv * 2 ^ Z.of_nat sh.
+Proof. exact add_sum_two_numbers_with_shift_total_exact. Qed.
+
+(* the wrappers: pairwise distinct input labels (bare_circuit's are), at least one weight *)
+Theorem C07_generate_sum_n_bits_works : forall fresh, Injective fresh -> forall k0 ins basis b be,
+  NoDup ins -> resolve_basis basis = Ok b -> exists c, generate_sum_n_bits fresh k0 ins basis be = Ok c.
+Proof. exact generate_sum_n_bits_works. Qed.
+
+Theorem C07_generate_sum_n_bits_total_exact : forall fresh, Injective fresh -> forall k0 ins basis b be,
+  NoDup ins -> resolve_basis basis = Ok b ->
+  exists c, generate_sum_n_bits fresh k0 ins basis be = Ok c /\
+    inputs c = ins /\ only_basis (t_of b) c /\
+    (exists g, length (gates c) = (length ins + g)%nat /\ nbits_bound b g (length (outputs c)) (length ins)) /\
+    forall asg bs, assigns asg ins bs ->
+      exists rv, bvals c asg (outputs c) rv /\ decode be rv = ones bs.
+Proof. exact generate_sum_n_bits_total_exact. Qed.
+
+Theorem C07_generate_sum_weighted_bits_efficient_works : forall fresh, Injective fresh -> forall k0 ins weights basis b,
+  NoDup ins -> ins <> [] -> length weights = length ins -> resolve_basis basis = Ok b ->
+  exists c, generate_sum_weighted_bits_efficient fresh k0 ins weights basis = Ok c.
+Proof. exact generate_sum_weighted_bits_efficient_works. Qed.
+
+Theorem C07_generate_sum_weighted_bits_efficient_total_exact : forall fresh, Injective fresh -> forall k0 ins weights basis b,
+  NoDup ins -> ins <> [] -> length weights = length ins -> resolve_basis basis = Ok b ->
+  exists c, generate_sum_weighted_bits_efficient fresh k0 ins weights basis = Ok c /\
+    inputs c = ins /\ only_basis (t_of b) c /\
+    (exists g, length (gates c) = (length ins + g)%nat /\
+               match b with
+               | AIG => (g + 3 * length (outputs c) <= 7 * length ins)%nat
+               | XAIG => (g + 2 * length (outputs c) <= 5 * length ins)%nat
+               end) /\
+    exists res, outputs c = map snd res /\ incr res /\
+      forall asg bs, assigns asg ins bs ->
+        exists rv, bvals c asg (outputs c) rv /\ wvalue (map fst res) rv = wvalue weights bs.
+Proof. exact generate_sum_weighted_bits_efficient_total_exact. Qed.
+
+Theorem C07_generate_sum_weighted_bits_naive_works : forall fresh, Injective fresh -> forall k0 ins weights basis b,
+  NoDup ins -> ins <> [] -> length weights = length ins -> resolve_basis basis = Ok b ->
+  exists c, generate_sum_weighted_bits_naive fresh k0 ins weights basis = Ok c.
+Proof. exact generate_sum_weighted_bits_naive_works. Qed.
+
+Theorem C07_generate_sum_weighted_bits_naive_total_exact : forall fresh, Injective fresh -> forall k0 ins weights basis b,
+  NoDup ins -> ins <> [] -> length weights = length ins -> resolve_basis basis = Ok b ->
+  exists c, generate_sum_weighted_bits_naive fresh k0 ins weights basis = Ok c /\
+    inputs c = ins /\ only_basis (t_of b) c /\
+    (length (gates c) + 3 * length (outputs c) <= (match b with AIG => 8 | XAIG => 6 end) * length ins)%nat /\
+    exists res, outputs c = map snd res /\ incr res /\
+      forall asg bs, assigns asg ins bs ->
+        exists rv, bvals c asg (outputs c) rv /\ wvalue (map fst res) rv = wvalue weights bs.
+Proof. exact generate_sum_weighted_bits_naive_total_exact. Qed.
+
 (* ---- non-vacuity: the hypotheses are satisfiable ------------------------------------------------------- *)
 Definition demo_host : circuit :=
   match circuit_with_inputs ["a"; "b"; "c"; "d"; "e"] with Ok c => c | Err _ => empty_circuit end.
@@ -278,3 +458,24 @@ Example C07_nonvacuous_weighted :
              (mkB demo_host 1)) = true /\
   is_ok (run hex_label (add_sum_two_numbers_with_shift 3 ["a"] ["b"; "c"] true) (mkB demo_host 1)) = true.
 Proof. vm_compute. repeat split. Qed.
+
+(* the hypotheses of the works-theorems are satisfiable: an injective naming function that never
+   yields "", a host whose gates are the operands and in which "" is not a gate *)
+Example C07_works_hypotheses_satisfiable :
+  Injective short_label /\ (forall k, short_label k <> ""%string) /\
+  all_exist demo_host ["a"; "b"; "c"; "d"; "e"] /\ has_gate demo_host "" = false /\
+  NoDup ["a"; "b"; "c"; "d"; "e"]%string /\
+  is_ok (run short_label (add_sum_pow2_m1 (BEnum AIG) true ["a"; "b"; "c"; "d"; "e"]) (mkB demo_host 1)) = true.
+Proof.
+  split; [exact short_label_injective|]. split; [exact short_label_nonempty|].
+  split; [repeat constructor|]. split; [reflexivity|]. split; [|vm_compute; reflexivity].
+  repeat constructor; simpl; intuition discriminate.
+Qed.
+
+(* the hypothesis `forall k, fresh k <> ""` of C07_sum_pow2_m1_works cannot be dropped: with an
+   injective naming function whose first label is "", filter(None, .) empties out[0] and the
+   implementation's out[0][len(out[0]) - 1] raises IndexError *)
+Example C07_pow2_m1_needs_nonempty_uuid_labels :
+  Injective empty_first /\
+  run empty_first (add_sum_pow2_m1 (BEnum XAIG) false ["a"; "b"]) (mkB demo_host 0) = Err PyIndexError.
+Proof. split; [exact empty_first_injective|vm_compute; reflexivity]. Qed.
